@@ -21,16 +21,34 @@ FINISHED = {"FILLED", "CANCELED", "REJECTED", "EXPIRED"}
 
 
 def _status_set(expr, subject_rx):
-    """FOrdStatus members a test accepts for the subject: `s == FOrdStatus.A or s == FOrdStatus.B` and `s in (FOrdStatus.A, ...)` alike."""
-    out = set(re.findall(subject_rx + r" == FOrdStatus\.(\w+)", unparse(expr)))
-    for x in ast.walk(expr):
-        if isinstance(x, ast.Compare) and len(x.ops) == 1 and isinstance(x.ops[0], ast.In) and re.fullmatch(subject_rx, unparse(x.left)):
-            coll = x.comparators[0]
-            if isinstance(coll, ast.Call) and coll.args and unparse(coll.func) in ("frozenset", "set", "tuple"):
-                coll = coll.args[0]
-            if isinstance(coll, (ast.Tuple, ast.List, ast.Set)):
-                out |= {e.attr for e in coll.elts if isinstance(e, ast.Attribute) and unparse(e.value) == "FOrdStatus"}
-    return out
+    """FOrdStatus members a test accepts for the subject: `s == FOrdStatus.A or s == FOrdStatus.B` and `s in (FOrdStatus.A, ...)` alike.
+    `or` joins, `and` intersects (two different equalities on one subject accept nothing); a conjunct about something else makes the test
+    narrower than any status set (nothing is promised), a disjunct about something else only widens it."""
+    def rec(x):
+        if isinstance(x, ast.BoolOp):
+            parts = [rec(v) for v in x.values]
+            if isinstance(x.op, ast.Or):
+                out = set()
+                for p_ in parts:
+                    out |= p_ or set()
+                return out
+            if any(p_ is None for p_ in parts):
+                return set()
+            out = parts[0]
+            for p_ in parts[1:]:
+                out = out & p_
+            return out
+        if isinstance(x, ast.Compare) and len(x.ops) == 1 and re.fullmatch(subject_rx, unparse(x.left)):
+            if isinstance(x.ops[0], ast.Eq) and isinstance(x.comparators[0], ast.Attribute) and unparse(x.comparators[0].value) == "FOrdStatus":
+                return {x.comparators[0].attr}
+            if isinstance(x.ops[0], ast.In):
+                coll = x.comparators[0]
+                if isinstance(coll, ast.Call) and coll.args and unparse(coll.func) in ("frozenset", "set", "tuple"):
+                    coll = coll.args[0]
+                if isinstance(coll, (ast.Tuple, ast.List, ast.Set)):
+                    return {e.attr for e in coll.elts if isinstance(e, ast.Attribute) and unparse(e.value) == "FOrdStatus"}
+        return None
+    return rec(expr) or set()
 
 
 def run(ctx):
